@@ -375,6 +375,48 @@ def standin_noise_models(tier, seed):
                 if set(got) != set(want) or any(abs(got[k] - want[k]) > 1e-6 for k in got):
                     fails.append(dict(args=dict(circuit=repr(c), noise_model=mname, simulator=sname), failed="run-with-noise-differs",
                                       clause=f"{sname}(noise=m).run(c) gives records {sorted(got.items())[:3]}, {sname}().run(c.with_noise(m)) gives {sorted(want.items())[:3]}"))
+    # two repetitions are two independent draws: the joint distribution of (repetition 1, repetition 2) is the product of the
+    # one-repetition distribution of the noisy circuit with itself (a trajectory shared by all repetitions would correlate them)
+    class _PairNoise(cirq.NoiseModel):
+        """a two-qubit channel on (q0, q1) after every moment"""
+
+        def noisy_moment(self, moment, system_qubits):
+            return [moment, cirq.Moment(cirq.depolarize(0.6, n_qubits=2)(q0, q1))]
+
+    templates2 = [
+        [cirq.Moment(cirq.measure(q0, key="a")), cirq.Moment(cirq.measure(q1, key="b"))],
+        [cirq.Moment(cirq.measure(q1, key="a")), cirq.Moment(cirq.measure(q0, key="b"))],
+    ]
+    run_models2 = run_models[1:2] + [("two-qubit depolarizing after every moment", _PairNoise()), ("amplitude damping 0.3", cirq.ConstantQubitNoiseModel(cirq.amplitude_damp(0.3)))]
+
+    def canon2(result):
+        return tuple(sorted((k, tuple(tuple(tuple(int(x) for x in inst) for inst in rep) for rep in arr)) for k, arr in result.records.items()))
+
+    for tmpl in templates2:
+        c = cirq.Circuit(tmpl)
+        for mname, nm in run_models2:
+            noisy = c.with_noise(nm)
+            for sname, mk in (("Simulator", lambda r, m: cirq.Simulator(noise=m, seed=r)), ("DensityMatrixSimulator", lambda r, m: cirq.DensityMatrixSimulator(noise=m, seed=r))):
+                if sname == "Simulator" and not mname.startswith("bit flip"):
+                    continue  # (the state-vector simulator draws one Kraus operator per noise operation: kept to the two-outcome channel so that every branch can be enumerated)
+                cases += 1
+                try:
+                    one, two = {}, {}
+                    for p_, rec in enumerate_branches(lambda r: _canon_records(mk(r, None).run(noisy, repetitions=1)), max_branches=4096):
+                        one[rec] = one.get(rec, 0.0) + p_
+                    for p_, rec in enumerate_branches(lambda r: canon2(mk(r, nm).run(c, repetitions=2)), max_branches=8192):
+                        two[rec] = two.get(rec, 0.0) + p_
+                except RuntimeError:
+                    continue
+                want2 = {}
+                for r1, p1 in one.items():
+                    for r2, p2 in one.items():
+                        key = tuple(sorted((k1, (v1[0:1] and (v1,) + (dict(r2)[k1],))) for k1, v1 in r1))
+                        want2[key] = want2.get(key, 0.0) + p1 * p2
+                if set(k for k, v in two.items() if v > 1e-9) != set(k for k, v in want2.items() if v > 1e-9) or any(abs(two.get(k, 0) - want2.get(k, 0)) > 1e-6 for k in want2):
+                    fails.append(dict(args=dict(circuit=repr(c), noise_model=mname, simulator=sname), failed="run-repetitions-not-independent",
+                                      clause=f"{sname}(noise=m).run(c, repetitions=2): the joint distribution of the two repetitions {sorted((k, round(v, 4)) for k, v in two.items())[:4]} "
+                                             f"is not the product of the one-repetition distribution of c.with_noise(m) {sorted((k, round(v, 4)) for k, v in one.items())[:4]}"))
     return dict(function="cirq-core/cirq/sim/simulator_base.py:SimulatorBase._core_iterator + devices/noise_model.py", case="noise-models",
                 bound=f"{n} seeded circuits on 3 qubits with mid-circuit measurements (the simulator splits there) x 6 noise models (constant, prepend, channel-like, insertion, thermal)",
                 cases=cases, distinct=len(distinct), failures=len(fails), exhaustive=False, _fails=_uniq(fails))
